@@ -5,6 +5,7 @@
    JSON decoding of results is exercised by the harness only (checks/C16.json, tested_not_proved). *)
 From Coq Require Import ZArith List Bool Strings.String.
 From Verif Require Import Base.F64 Base.Str Model.ApiClient Proofs.C16_proofs.
+From Verif Require Gen.Gen_Api Proofs.Gen_tie.
 Import ListNotations.
 Open Scope Z_scope.
 
@@ -138,3 +139,12 @@ Example example_label_and_time :
    within_ms (format_time {| t_sec := 2 ^ 53 + 1; t_nsec := 0 |}) (2 ^ 53 + 1) 0) =
   (map lit ["api"; "v1"; "label"; "a b"; "values"]%string, map lit ["api"; "v1"; "label"; "a"; "b"; "values"]%string, true, false).
 Proof. vm_compute. reflexivity. Qed.
+
+(* the endpoint paths spelled out in the model are the ones of the Go source (Gen/Gen_Api.v is regenerated from
+   api/prometheus/v1/api.go on every run) *)
+Theorem api_endpoints_match_source :
+  map snd Verif.Gen.Gen_Api.api_endpoints =
+  [ep_alerts; ep_alertmanagers; ep_query; ep_query_range; ep_query_exemplars; ep_labels; ep_label_values; ep_series;
+   ep_targets; ep_targets_metadata; ep_metadata; ep_rules; ep_snapshot; ep_delete_series; ep_clean_tombstones;
+   ep_config; ep_flags; ep_buildinfo; ep_runtimeinfo; ep_tsdb; ep_walreplay].
+Proof. exact Verif.Proofs.Gen_tie.api_endpoints_match_source_lemma. Qed.
